@@ -1156,6 +1156,16 @@ def mon_B(case, pid):
                             cause = "upsert-of-expired-entry-during-its-eviction"
                         dl = "no deadline" if e["expiry"] is None else f"deadline {e['expiry']}"
                         yield finding(pid, st, f"the sweeper removed key {k} (id {e['id']}, {dl}) at clock {prev['now']}: a reader could still get it", f"{pid}/live-key-removed-by-sweep/{cause}")
+            if at_rest and not snap["shut"] and not any(lv["open"].values()):
+                # an overlap explains an index that is out of step NOW; once store and index agree again on the key (at rest, no
+                # upsert of it in flight) the explanation is used up, and a later loss on the same key is a new violation
+                for k in list(lv["overlapped"] | lv.get("overtook", set())):
+                    e = snap["store"].get(k)
+                    in_step = e is None or (e["expiry"] is None and not any(i == e["id"] for (_sh, i, _e) in snap["ttl"])) or \
+                        (e["expiry"] is not None and any(i == e["id"] and x == e["expiry"] for (_sh, i, x) in snap["ttl"]))
+                    if in_step:
+                        lv["overlapped"].discard(k)
+                        lv.get("overtook", set()).discard(k)
             if pid == "C10" and at_rest and not snap["shut"] and "unsweepable" not in seen:
                 # liveness side of C10: an entry whose own deadline has passed must still be in reach of the sweeper, i.e. its key
                 # id must be in the expiry index (in whatever shard); otherwise no sweep will ever reclaim it
